@@ -229,7 +229,10 @@ def check_case(case):
             for acc, rule, k2rule in (("gassner_miner_elementary", "miner_elementary", k1),
                                       ("gassner_miner_haibach", "miner_haibach", 2 * k1 - 1)):
                 name = rule.replace("miner_", "")
-                for k2, k2name in ((None, "curve-without-k_2"), (k2rule, "curve-with-k_2")):
+                # the curve may carry a k_2 entry of its own: none, the rule's own slope, or a *foreign* one (22, or k_1 as left
+                # behind by miner_elementary().to_pandas()) - the rule named by the accessor decides, not the entry
+                for k2, k2name in ((None, "curve-without-k_2"), (k2rule, "curve-with-k_2"),
+                                   (22.0, "curve-with-foreign-k_2"), (k1 if name == "haibach" else 2 * k1 - 1, "curve-with-foreign-k_2")):
                     m = getattr(curve_series(curve, k2), acc)
                     N = float(np.asarray(m.gassner_cycles(lc)))
                     ev += 1
@@ -248,6 +251,9 @@ def check_case(case):
                     other = "irregular" if case["edges"] != "irregular" else "regular"
                     if len(ALL_EDGES[other]) == len(edges) and form != "histogram-with-mean":
                         lc2 = build(form, ALL_EDGES[other], counts, level)
+                        if name == "elementary":
+                            m.gassner(lc)                  # the Gassner-shifted curve is asked for in between (same object)
+                            ev += 1
                         kept = float(np.asarray(m.gassner_cycles(lc2)))
                         fresh = float(np.asarray(getattr(curve_series(curve, k2), acc).gassner_cycles(lc2)))
                         ev += 2
